@@ -55,6 +55,54 @@ func (vc *VC) freshResults(sig *types.Signature, name string) []string {
 	return res
 }
 
+// callDesc describes one (possibly devirtualised) call.
+type callDesc struct {
+	key      string
+	sig      *types.Signature // call signature (results)
+	fsig     *types.Signature // declared signature of the callee (parameter / receiver names)
+	fn       *ssa.Function    // static callee, if any
+	isInvoke bool
+	method   *types.Func
+	recv     string
+	recvType types.Type
+	args     []string
+	argTypes []types.Type
+	com      *ssa.CallCommon // original call (nil for devirtualised candidates)
+}
+
+func (vc *VC) descOf(com *ssa.CallCommon, args []string, recv string) *callDesc {
+	d := &callDesc{key: calleeKey(com), sig: com.Signature(), com: com, args: args, recv: recv}
+	for _, a := range com.Args {
+		d.argTypes = append(d.argTypes, a.Type())
+	}
+	if com.IsInvoke() {
+		d.isInvoke = true
+		d.method = com.Method
+		d.recvType = com.Value.Type()
+		d.fsig = com.Method.Type().(*types.Signature)
+	} else if fn := com.StaticCallee(); fn != nil {
+		d.fn = fn
+		d.fsig = declaredSig(fn)
+	} else {
+		d.fsig = d.sig
+	}
+	return d
+}
+
+func declaredSig(fn *ssa.Function) *types.Signature {
+	if fn.Object() != nil {
+		if f, ok := fn.Object().(*types.Func); ok {
+			return f.Type().(*types.Signature)
+		}
+	}
+	return fn.Signature
+}
+
+// staticDesc describes a direct call of fn with the given arguments (receiver first for methods).
+func staticDesc(fn *ssa.Function, args []string, argTypes []types.Type) *callDesc {
+	return &callDesc{key: funcKey(fn), sig: fn.Signature, fsig: declaredSig(fn), fn: fn, args: args, argTypes: argTypes}
+}
+
 func (vc *VC) callWith(com *ssa.CallCommon, args []string, recv string, ins ssa.Instruction) []string {
 	key := calleeKey(com)
 	sig := com.Signature()
@@ -64,13 +112,14 @@ func (vc *VC) callWith(com *ssa.CallCommon, args []string, recv string, ins ssa.
 	if b, ok := com.Value.(*ssa.Builtin); ok && !com.IsInvoke() {
 		return vc.builtin(b, com, args, ins)
 	}
+	d := vc.descOf(com, args, recv)
 	// call-site assertions of the caller's contract
-	if vc.contract != nil {
-		for _, ac := range vc.contract.AssertCall {
+	if c := vc.r().contract; c != nil && vc.parent == nil {
+		for _, ac := range c.AssertCall {
 			if !vc.clauseOn(ac) || !calleeMatches(key, ac.Callee) {
 				continue
 			}
-			env := vc.callSiteEnv(com, args, recv)
+			env := vc.callSiteEnv(d)
 			name := "[" + strings.Join(ac.Labels, ",") + "]"
 			if len(ac.Labels) == 0 {
 				name = fmt.Sprintf("assert@call:%s@%d", ac.Callee, ac.Line)
@@ -82,48 +131,286 @@ func (vc *VC) callWith(com *ssa.CallCommon, args []string, recv string, ins ssa.
 		vc.safety("method call on nil interface: "+key, fmt.Sprintf("(not (= %s inil))", recv))
 	}
 	if key == "" {
-		// call of a function value
-		vc.warn("call of function value %s: all heaps havocked", com.Value.Name())
-		fv := vc.val(com.Value)
-		vc.safety("call of nil function value", fmt.Sprintf("(not (= %s 0))", fv))
-		vc.havocAll()
-		return vc.freshResults(sig, "fv")
+		return vc.dynamicCall(com, d)
 	}
+	return vc.dispatch(d)
+}
+
+// dispatch applies a call whose callee is known by key: contract, inlining, or a havoc summary.
+func (vc *VC) dispatch(d *callDesc) []string {
+	key, sig := d.key, d.sig
 	if c, ok := vc.P.Spec.Contracts[key]; ok {
-		return vc.applyContract(c, com, key, args, recv)
+		return vc.applyContract(c, d)
 	}
-	fn := com.StaticCallee()
-	if fn != nil && len(fn.Blocks) > 0 {
-		// in-module function without a contract: havoc its inferred modset
-		vc.uncontracted[key] = true
-		for _, h := range sortedKeys(vc.P.modsetOf(fn)) {
+	if bs := vc.P.Spec.Behaviors[key]; len(bs) > 0 {
+		return vc.applyBehaviors(bs, d)
+	}
+	if d.fn != nil && len(d.fn.Blocks) > 0 {
+		if res, ok := vc.inline(d); ok {
+			return res
+		}
+		// in-module function without a contract that cannot be inlined: havoc its inferred modset
+		vc.r().uncontracted[key] = true
+		for _, h := range sortedKeys(vc.P.modsetOf(d.fn)) {
 			vc.havocH(vc.st, h)
 		}
 		vc.havocH(vc.st, "$next")
 		return vc.freshResults(sig, "uc")
 	}
-	if com.IsInvoke() {
-		// interface method without contract: union of implementations' modsets
-		vc.uncontracted[key] = true
-		impls := vc.P.implementations(com.Method)
-		if len(impls) == 0 || !inModule(com.Method.Pkg()) {
-			vc.defaultExternal(com, key, args, recv)
-		} else {
-			ms := map[string]bool{}
-			for _, f := range impls {
-				for h := range vc.P.modsetOf(f) {
-					ms[h] = true
-				}
-			}
-			for _, h := range sortedKeys(ms) {
-				vc.havocH(vc.st, h)
-			}
+	if d.isInvoke {
+		impls := vc.P.implementations(d.method)
+		if len(impls) > 0 && inModule(d.method.Pkg()) {
+			return vc.invokeCandidates(d, impls)
 		}
+		vc.r().uncontracted[key] = true
+		vc.defaultExternal(d)
 		vc.havocH(vc.st, "$next")
 		return vc.freshResults(sig, "im")
 	}
-	vc.defaultExternal(com, key, args, recv)
+	vc.defaultExternal(d)
 	return vc.freshResults(sig, "ext")
+}
+
+type branchOut struct {
+	guard string
+	cur   string
+	st    *State
+	res   []string
+}
+
+// mergeBranches joins the outcomes of mutually exclusive guarded branches.
+func (vc *VC) mergeBranches(outs []branchOut, sig *types.Signature) []string {
+	if len(outs) == 1 {
+		vc.cur, vc.st = outs[0].cur, outs[0].st
+		return outs[0].res
+	}
+	var curs []string
+	for _, o := range outs {
+		curs = append(curs, o.cur)
+	}
+	vc.cur = vc.define("R", "Bool", "(or "+strings.Join(curs, " ")+")")
+	names := map[string]bool{}
+	for _, o := range outs {
+		for k := range o.st.h {
+			names[k] = true
+		}
+	}
+	st := &State{h: map[string]string{}}
+	for _, k := range sortedKeys(names) {
+		srt := vc.pre.heapSort[k]
+		last := outs[len(outs)-1]
+		term := vc.getH(last.st, k, srt)
+		same := true
+		for _, o := range outs {
+			if vc.getH(o.st, k, srt) != term {
+				same = false
+			}
+		}
+		if same {
+			if _, ok := last.st.h[k]; ok {
+				st.h[k] = term
+			}
+			continue
+		}
+		for i := len(outs) - 2; i >= 0; i-- {
+			term = fmt.Sprintf("(ite %s %s %s)", outs[i].guard, vc.getH(outs[i].st, k, srt), term)
+		}
+		st.h[k] = vc.define(k, srt, term)
+	}
+	vc.st = st
+	var res []string
+	for i := 0; i < sig.Results().Len(); i++ {
+		term := outs[len(outs)-1].res[i]
+		for j := len(outs) - 2; j >= 0; j-- {
+			term = fmt.Sprintf("(ite %s %s %s)", outs[j].guard, outs[j].res[i], term)
+		}
+		res = append(res, vc.define("mr", vc.pre.sortOf(sig.Results().At(i).Type()), term))
+	}
+	return res
+}
+
+// dynamicCall: a call of a function value. The possible targets are the module functions of the same
+// signature whose address is taken; each is applied under the guard that the value denotes it.
+func (vc *VC) dynamicCall(com *ssa.CallCommon, d *callDesc) []string {
+	fv := vc.val(com.Value)
+	vc.safety("call of nil function value", fmt.Sprintf("(not (= %s 0))", fv))
+	cands := vc.P.fvCandidates(d.sig)
+	restricted := false
+	if c := vc.r().contract; c != nil && len(c.FvTargets) > 0 {
+		var keep []fvCand
+		for _, cd := range cands {
+			for _, pat := range c.FvTargets {
+				if strings.Contains(funcKey(cd.fn), pat) {
+					keep = append(keep, cd)
+					break
+				}
+			}
+		}
+		cands = keep
+		restricted = true
+	}
+	vc.pre.declFun("fv_fn", "(Int) Int")
+	vc.pre.declFun("fv_recv", "(Int) Int")
+	base, baseCur := vc.st, vc.cur
+	var outs []branchOut
+	var guards []string
+	for _, c := range cands {
+		g := fmt.Sprintf("(= (fv_fn %s) %d)", fv, vc.P.fnID(funcKey(c.fn)))
+		guards = append(guards, g)
+		vc.st = base.clone()
+		vc.cur = vc.define("R", "Bool", fmt.Sprintf("(and %s %s)", baseCur, g))
+		args := d.args
+		argTypes := d.argTypes
+		if c.bound {
+			recvT := c.fn.Signature.Recv().Type()
+			r := vc.define("fvrecv", "Int", fmt.Sprintf("(fv_recv %s)", fv))
+			vc.assumeRange(r, recvT)
+			args = append([]string{r}, d.args...)
+			argTypes = append([]types.Type{recvT}, d.argTypes...)
+		}
+		res := vc.dispatch(staticDesc(c.fn, args, argTypes))
+		outs = append(outs, branchOut{guard: g, cur: vc.cur, st: vc.st, res: res})
+	}
+	// none of the known targets
+	vc.st = base.clone()
+	none := "true"
+	if len(guards) > 0 {
+		none = "(not (or " + strings.Join(guards, " ") + "))"
+		if len(guards) == 1 {
+			none = "(not " + guards[0] + ")"
+		}
+	}
+	vc.cur = vc.define("R", "Bool", fmt.Sprintf("(and %s %s)", baseCur, none))
+	if restricted {
+		// the contract restricts the targets: show that no other target is possible here
+		vc.oblige("fvtargets", "assert", fmt.Sprintf("function value called at %s denotes one of the declared targets", vc.pos()), "false", nil)
+		vc.assume("false")
+		if len(outs) > 0 {
+			return vc.mergeBranches(outs, d.sig)
+		}
+	}
+	if len(cands) == 0 {
+		vc.warn("call of function value %s: no candidate targets, all heaps havocked", com.Value.Name())
+	}
+	vc.havocAll()
+	outs = append(outs, branchOut{guard: none, cur: vc.cur, st: vc.st, res: vc.freshResults(d.sig, "fv")})
+	return vc.mergeBranches(outs, d.sig)
+}
+
+// invokeCandidates: an interface method call without a contract on the interface method is resolved
+// over the module types implementing it, each under the guard that the receiver has that dynamic type.
+func (vc *VC) invokeCandidates(d *callDesc, impls []implTarget) []string {
+	base, baseCur := vc.st, vc.cur
+	var outs []branchOut
+	var guards []string
+	for _, it := range impls {
+		_, un := vc.pre.boxFns(it.dyn)
+		g := fmt.Sprintf("(= (typeof %s) %d)", d.recv, vc.pre.typeID(it.dyn))
+		guards = append(guards, g)
+		vc.st = base.clone()
+		vc.cur = vc.define("R", "Bool", fmt.Sprintf("(and %s %s)", baseCur, g))
+		rv := vc.define("dynrecv", vc.pre.sortOf(it.dyn), fmt.Sprintf("(%s %s)", un, d.recv))
+		vc.assumeRange(rv, it.dyn)
+		cur := TV{T: rv, Ty: it.dyn}
+		// walk the embedding path to the receiver of the declared method
+		okPath := true
+		for _, idx := range it.path {
+			t := types.Unalias(cur.Ty)
+			if pt, ok := t.Underlying().(*types.Pointer); ok {
+				st := types.Unalias(pt.Elem())
+				if !isExpandedStruct(st) {
+					okPath = false
+					break
+				}
+				vc.safety("nil dereference through embedded receiver", fmt.Sprintf("(not (= %s 0))", cur.T))
+				ft := st.Underlying().(*types.Struct).Field(idx).Type()
+				cur = TV{T: fmt.Sprintf("(select %s %s)", vc.getH(vc.st, fieldHeap(st, idx), vc.fieldHeapSort(st, idx)), cur.T), Ty: ft}
+			} else if isExpandedStruct(t) {
+				ft := t.Underlying().(*types.Struct).Field(idx).Type()
+				cur = TV{T: fmt.Sprintf("(%s %s)", fieldAcc(t, idx), cur.T), Ty: ft}
+			} else {
+				okPath = false
+				break
+			}
+		}
+		var res []string
+		if !okPath {
+			vc.havocAll()
+			res = vc.freshResults(d.sig, "im")
+		} else {
+			r := vc.define("recv", vc.pre.sortOf(cur.Ty), cur.T)
+			vc.assumeRange(r, cur.Ty)
+			res = vc.dispatch(staticDesc(it.fn, append([]string{r}, d.args...), append([]types.Type{cur.Ty}, d.argTypes...)))
+		}
+		outs = append(outs, branchOut{guard: g, cur: vc.cur, st: vc.st, res: res})
+	}
+	vc.st = base.clone()
+	none := "(not (or " + strings.Join(guards, " ") + "))"
+	if len(guards) == 1 {
+		none = "(not " + guards[0] + ")"
+	}
+	vc.cur = vc.define("R", "Bool", fmt.Sprintf("(and %s %s)", baseCur, none))
+	vc.r().uncontracted[d.key+" (unknown dynamic type)"] = true
+	vc.havocAll()
+	outs = append(outs, branchOut{guard: none, cur: vc.cur, st: vc.st, res: vc.freshResults(d.sig, "im")})
+	return vc.mergeBranches(outs, d.sig)
+}
+
+// inline translates a loop-free module callee without a contract in place.
+func (vc *VC) inline(d *callDesc) ([]string, bool) {
+	fn := d.fn
+	if vc.depth >= 5 {
+		return nil, false
+	}
+	for p := vc; p != nil; p = p.parent {
+		if p.fn == fn {
+			return nil, false
+		}
+	}
+	n := 0
+	for _, b := range fn.Blocks {
+		n += len(b.Instrs)
+		for _, p := range b.Preds {
+			if b.Dominates(p) {
+				return nil, false // has a loop
+			}
+		}
+	}
+	if n > 400 || len(fn.Params) != len(d.args) {
+		return nil, false
+	}
+	ch := &VC{P: vc.P, fn: fn, key: funcKey(fn), pre: vc.pre, parent: vc, depth: vc.depth + 1,
+		vals: map[ssa.Value]string{}, addrs: map[ssa.Value]*Addr{}, tuples: map[ssa.Value][]string{},
+		reach: map[*ssa.BasicBlock]string{}, outSt: map[*ssa.BasicBlock]*State{}, outReach: map[*ssa.BasicBlock]string{},
+		edge: map[[2]int]string{}, params: map[string]TV{}, prop: vc.prop, rangeIt: map[ssa.Value]*rangeInfo{},
+		safetyOn: vc.safetyOn, safetyProp: vc.safetyProp, entry: vc.entry}
+	ch.findLoops()
+	for i, p := range fn.Params {
+		ch.vals[p] = d.args[i]
+		ch.params[p.Name()] = TV{T: d.args[i], Ty: p.Type()}
+	}
+	for _, fv := range fn.FreeVars {
+		ch.vals[fv] = ch.declare("fv_"+fv.Name(), vc.pre.sortOf(fv.Type()))
+	}
+	ch.cur, ch.st = vc.cur, vc.st.clone()
+	vc.r().inlined[funcKey(fn)] = true
+	for _, b := range ch.rpo() {
+		ch.block(b)
+	}
+	if len(ch.rets) == 0 {
+		// callee never returns normally (always panics)
+		vc.cur = vc.define("R", "Bool", "false")
+		return vc.freshResults(d.sig, "nr"), true
+	}
+	var outs []branchOut
+	for _, r := range ch.rets {
+		var res []string
+		for _, tv := range r.res {
+			res = append(res, tv.T)
+		}
+		outs = append(outs, branchOut{guard: r.cur, cur: r.cur, st: r.st, res: res})
+	}
+	return vc.mergeBranches(outs, d.sig), true
 }
 
 func calleeMatches(key, pat string) bool {
@@ -155,10 +442,12 @@ func (vc *VC) havocAll() {
 // defaultExternal applies the default summary of an external callee: it terminates,
 // writes only memory reachable from its pointer arguments (and slice arguments for known
 // slice writers), and returns arbitrary well-typed values.
-func (vc *VC) defaultExternal(com *ssa.CallCommon, key string, args []string, recv string) {
-	vc.defaultExt[key] = true
-	for _, h := range vc.P.externalMods(com, key) {
-		vc.havocH(vc.st, h)
+func (vc *VC) defaultExternal(d *callDesc) {
+	vc.r().defaultExt[d.key] = true
+	if d.com != nil {
+		for _, h := range vc.P.externalMods(d.com, d.key) {
+			vc.havocH(vc.st, h)
+		}
 	}
 	vc.havocH(vc.st, "$next")
 }
@@ -322,25 +611,24 @@ func refOfSrc(s, sort string) string {
 
 // ---------- contracts at call sites ----------
 
-func (vc *VC) applyContract(c *Contract, com *ssa.CallCommon, key string, args []string, recv string) []string {
+func (vc *VC) applyContract(c *Contract, d *callDesc) []string {
+	key, args, recv := d.key, d.args, d.recv
 	if c.Assumed {
-		vc.assumedUsed[key] = true
+		vc.r().assumedUsed[key] = true
 	}
-	sig := com.Signature()
+	sig := d.sig
 	pre := vc.st.clone()
-	env := vc.callSiteEnv(com, args, recv)
+	env := vc.callSiteEnv(d)
 	env.pkgPath = c.PkgPath
 	if len(c.Params) > 0 {
 		// explicit parameter names override
 		all := append([]string{}, args...)
 		tys := []types.Type{}
-		if com.IsInvoke() {
+		if d.isInvoke {
 			all = append([]string{recv}, args...)
-			tys = append(tys, com.Value.Type())
+			tys = append(tys, d.recvType)
 		}
-		for _, a := range com.Args {
-			tys = append(tys, a.Type())
-		}
+		tys = append(tys, d.argTypes...)
 		for i, n := range c.Params {
 			if i < len(all) {
 				env.vars[n] = TV{T: all[i], Ty: tys[i]}
@@ -364,19 +652,21 @@ func (vc *VC) applyContract(c *Contract, com *ssa.CallCommon, key string, args [
 	var mods map[string]bool
 	if c.HasMod {
 		mods = vc.resolveModifies(c)
-	} else if fn := com.StaticCallee(); fn != nil && len(fn.Blocks) > 0 {
+	} else if fn := d.fn; fn != nil && len(fn.Blocks) > 0 {
 		mods = vc.P.modsetOf(fn)
-	} else if com.IsInvoke() && inModule(com.Method.Pkg()) {
+	} else if d.isInvoke && inModule(d.method.Pkg()) {
 		mods = map[string]bool{}
-		for _, f := range vc.P.implementations(com.Method) {
-			for h := range vc.P.modsetOf(f) {
+		for _, it := range vc.P.implementations(d.method) {
+			for h := range vc.P.modsetOf(it.fn) {
 				mods[h] = true
 			}
 		}
 	} else {
 		mods = map[string]bool{}
-		for _, h := range vc.P.externalMods(com, key) {
-			mods[h] = true
+		if d.com != nil {
+			for _, h := range vc.P.externalMods(d.com, key) {
+				mods[h] = true
+			}
 		}
 	}
 	for _, ga := range c.Epilogue {
@@ -398,9 +688,65 @@ func (vc *VC) applyContract(c *Contract, com *ssa.CallCommon, key string, args [
 	}
 	for _, e := range c.Ensures {
 		if e.Trusted {
-			vc.assumedUsed[key+" (trusted clause "+e.Name()+": "+trunc(e.Text, 100)+")"] = true
+			vc.r().assumedUsed[key+" (trusted clause "+e.Name()+": "+trunc(e.Text, 100)+")"] = true
 		}
 		vc.assume(vc.evalBool(post, e.E, e))
+	}
+	return res
+}
+
+// applyBehaviors applies a function described by behaviours: one of them must be applicable, and
+// every behaviour whose assumptions held in the pre-state contributes its postconditions.
+func (vc *VC) applyBehaviors(bs []*Contract, d *callDesc) []string {
+	key := d.key
+	sig := d.sig
+	pre := vc.st.clone()
+	var reqs []string
+	for _, c := range bs {
+		env := vc.callSiteEnv(d)
+		env.pkgPath = c.PkgPath
+		var rs []string
+		for _, r := range c.Requires {
+			rs = append(rs, vc.evalGoal(env, r.E, r))
+		}
+		if len(rs) == 0 {
+			rs = []string{"true"}
+		}
+		reqs = append(reqs, vc.define("bhv_"+c.Behavior, "Bool", "(and "+strings.Join(rs, " ")+")"))
+	}
+	goal := "(or " + strings.Join(reqs, " ") + ")"
+	if len(reqs) == 1 {
+		goal = reqs[0]
+	}
+	vc.oblige("pre:"+shortKey(key), "pre@call", fmt.Sprintf("one behaviour of %s is applicable at %s", key, vc.pos()), goal, nil)
+	vc.assume(goal)
+	mods := map[string]bool{}
+	if fn := d.fn; fn != nil && len(fn.Blocks) > 0 {
+		mods = vc.P.modsetOf(fn)
+	}
+	for _, h := range sortedKeys(mods) {
+		vc.havocH(vc.st, h)
+	}
+	vc.havocH(vc.st, "$next")
+	res := vc.freshResults(sig, "r")
+	for i, c := range bs {
+		env := vc.callSiteEnv(d)
+		post := &Env{vc: vc, pkgPath: c.PkgPath, vars: env.vars, cur: vc.st, old: pre}
+		var rtv []TV
+		for j, r := range res {
+			rtv = append(rtv, TV{T: r, Ty: sig.Results().At(j).Type()})
+		}
+		vc.bindResults(post, sig, rtv)
+		var es []string
+		for _, e := range c.Ensures {
+			if e.Trusted {
+				vc.r().assumedUsed[key+" (trusted clause "+e.Name()+")"] = true
+			}
+			es = append(es, vc.evalBool(post, e.E, e))
+		}
+		if len(es) > 0 {
+			vc.assume(fmt.Sprintf("(=> %s (and %s))", reqs[i], strings.Join(es, " ")))
+		}
 	}
 	return res
 }
@@ -414,41 +760,30 @@ func shortKey(key string) string {
 
 // callSiteEnv binds the callee's parameter names to the actual arguments; the caller's
 // own parameters remain visible under their names when not shadowed.
-func (vc *VC) callSiteEnv(com *ssa.CallCommon, args []string, recv string) *Env {
+func (vc *VC) callSiteEnv(d *callDesc) *Env {
 	env := &Env{vc: vc, pkgPath: vc.pkgPath(), vars: map[string]TV{}, cur: vc.st, old: vc.entry}
 	for k, v := range vc.params {
 		env.vars[k] = v
 	}
-	sig := com.Signature()
-	var fsig *types.Signature
-	if com.IsInvoke() {
-		fsig = com.Method.Type().(*types.Signature)
-		env.vars["recv"] = TV{T: recv, Ty: com.Value.Type()}
-		env.vars["self"] = TV{T: recv, Ty: com.Value.Type()}
-	} else if fn := com.StaticCallee(); fn != nil {
-		fsig = fn.Signature
-		if fn.Object() != nil {
-			if f, ok := fn.Object().(*types.Func); ok {
-				fsig = f.Type().(*types.Signature)
-			}
-		}
-	} else {
-		fsig = sig
-	}
+	fsig := d.fsig
+	args := d.args
 	idx := 0
-	if !com.IsInvoke() && fsig.Recv() != nil && len(args) > 0 {
+	if d.isInvoke {
+		env.vars["recv"] = TV{T: d.recv, Ty: d.recvType}
+		env.vars["self"] = TV{T: d.recv, Ty: d.recvType}
+	} else if fsig.Recv() != nil && len(args) > 0 {
 		name := fsig.Recv().Name()
 		if name == "" || name == "_" {
 			name = "recv"
 		}
-		tv := TV{T: args[0], Ty: com.Args[0].Type()}
+		tv := TV{T: args[0], Ty: d.argTypes[0]}
 		env.vars[name] = tv
 		env.vars["self"] = tv
 		idx = 1
 	}
 	for i := 0; i < fsig.Params().Len() && idx+i < len(args); i++ {
 		name := fsig.Params().At(i).Name()
-		tv := TV{T: args[idx+i], Ty: com.Args[idx+i].Type()}
+		tv := TV{T: args[idx+i], Ty: d.argTypes[idx+i]}
 		if name != "" && name != "_" {
 			env.vars[name] = tv
 		}
